@@ -634,29 +634,19 @@ def main(argv):
     viols = [r for r in allres if r["violates"]]
     diffs = [r for r in allres if not r["agree"] and not r["violates"]]
 
-    # ---- search when the model/impl tie or a proof broke without a monitor hit
-    searched = 0
-    if not viols and (diffs or proof_broken) and not [c for c in corr_broken if "build" in c]:
-        budget = 60 if tier == "quick" else 900
-        s_start = time.time()
-        k = 0
-        while time.time() - s_start < budget and not viols:
-            k += 1
-            r2, _, e2 = exec_cases(prop, "thorough", seed * 7919 + k, n * 3, 16, "search", log)
-            searched += len(r2)
-            viols = [r for r in r2 if r["violates"]]
-            if e2:
-                break
-
     known, _fixed = load_known()
     exit_code = 0
     out_lines = []
     new_viol = 0
     reported = set()
-    if viols:
-        # group by signature, shrink one representative per signature (at most 3 signatures)
+
+    def report_violations(vs):
+        """Group monitor hits by signature, shrink one representative each, match against the known
+        findings; returns the number of violations that are NOT known findings."""
+        nonlocal exit_code, new_viol
+        fresh = 0
         bysig = {}
-        for r in viols:
+        for r in vs:
             bysig.setdefault(signature(prop, r), []).append(r)
         for sig, rs in list(bysig.items())[:4]:
             rep = min(rs[:50], key=lambda r: len(r["input"]))
@@ -673,21 +663,43 @@ def main(argv):
             path = write_replay(prop, small, "violation found on the implementation (%d cases with this signature in this run)" % len(rs))
             out_lines.append("VIOLATION property=%s replay=%s" % (prop, path))
             new_viol += 1
+            fresh += 1
             exit_code = 1
-    elif diffs or proof_broken or corr_broken:
-        what = "; ".join(proof_broken + corr_broken) if (proof_broken or corr_broken) else \
-            "correspondence model/implementation (judge%s): %d of %d cases differ" % (prop[1:], len(diffs), len(allres))
-        body = ""
-        if diffs:
-            d = min(diffs[:50], key=lambda r: len(r["input"]))
-            body = "first differing case (shortest of the first 50):\ninput: %s\nimplementation: %s\nmodel: %s\nsearched %d further cases for a monitor hit: none\nre-run: put the input line into a file and run bin/check %s --replay <file>\n%s" % (
-                d["input"], d["obs"], d["model"], searched, prop, d["input"])
-        else:
-            body = "searched %d cases on the implementation for a monitor hit: none" % (searched + len(allres))
-        path = write_nofail(prop, what, body)
-        out_lines.append("VIOLATION property=%s replay=%s no-failing-input-found" % (prop, path))
-        new_viol += 1
-        exit_code = 1
+        return fresh
+
+    fresh = report_violations(viols) if viols else 0
+
+    # ---- the model/implementation tie or a proof broke without a (new) monitor hit: search, then report
+    searched = 0
+    if fresh == 0 and (diffs or proof_broken or corr_broken):
+        if (diffs or proof_broken) and not [c for c in corr_broken if "build" in c]:
+            budget = 60 if tier == "quick" else 900
+            s_start = time.time()
+            k = 0
+            known_sigs = set(kn["sig"] for kn in known if kn["prop"] == prop)
+            while time.time() - s_start < budget and fresh == 0:
+                k += 1
+                r2, _, e2 = exec_cases(prop, "thorough", seed * 7919 + k, n * 3, 16, "search", log)
+                searched += len(r2)
+                v2 = [r for r in r2 if r["violates"] and signature(prop, r) not in known_sigs]
+                if v2:
+                    viols = viols + v2
+                    fresh = report_violations(v2)
+                if e2:
+                    break
+        if fresh == 0:
+            what = "; ".join(proof_broken + corr_broken) if (proof_broken or corr_broken) else \
+                "correspondence model/implementation (judge%s): %d of %d cases differ" % (prop[1:], len(diffs), len(allres))
+            if diffs:
+                d = min(diffs[:50], key=lambda r: len(r["input"]))
+                body = "first differing case (shortest of the first 50):\ninput: %s\nimplementation: %s\nmodel: %s\nsearched %d further cases for a monitor hit: none\nre-run: put the input line into a file and run bin/check %s --replay <file>\n%s" % (
+                    d["input"], d["obs"], d["model"], searched, d.get("sub", prop), d["input"])
+            else:
+                body = "searched %d cases on the implementation for a monitor hit: none" % (searched + len(allres))
+            path = write_nofail(prop, what, body)
+            out_lines.append("VIOLATION property=%s replay=%s no-failing-input-found" % (prop, path))
+            new_viol += 1
+            exit_code = 1
 
     wall = time.time() - t0
     nontriv = stats.get("distinct_nontrivial", 0)
